@@ -38,6 +38,7 @@ type runStats struct {
 	sched    core.SchedStats
 	executed int
 	feat     uint64 // distinctness signature (0 = trivial)
+	pairs    int    // C12: state pairs compared
 	other    bool   // twin oracles: the failure is not attributable to this property
 }
 
@@ -254,6 +255,9 @@ func (w *check) Run(b api.Batch) *api.Result {
 				if st.probes[i] > 0 {
 					res.Count("fired:"+n, int64(st.probes[i]))
 				}
+			}
+			if st.pairs > 0 {
+				res.Count("value_independence_pairs_compared", int64(st.pairs))
 			}
 			if st.other {
 				res.Count("fails_with_and_without_the_fault:other_defect:"+v.String(), 1)
